@@ -469,6 +469,7 @@ type transientCall struct {
 	matchedAt   int    // >= 0: the result encodes unconsumed[matchedAt:matchedAt+need]
 	deliveredOK int    // bytes delivered during this call before any error
 	disturbed   bool   // the source reported an error at some point during this call
+	wrapped     bool   // the source sits inside a standard wrapper (bufio.Reader, io.MultiReader, ...) that may read ahead
 }
 
 func (e *Env) transientHistories(drv, label string, n int, judge func(c *transientCall)) (calls int) {
@@ -504,6 +505,19 @@ func (e *Env) transientHistories(drv, label string, n int, judge func(c *transie
 				c2 := ref.WordCounts[r.Intn(5)]
 				counts = append(counts, c2)
 				src.Steps = append(src.Steps, plan.Step{N: c2 + c2/3})
+			}
+		}
+		// every third history hands the source over inside a standard wrapper and without
+		// failures (a wrapper may read ahead and defers errors, so only successes are judged:
+		// each must encode the next unused bytes of the stream)
+		wrapped := h%3 == 2
+		if wrapped {
+			src.Wrap = []string{"bufio", "bufio16", "multi", "limited", "iotest-onebyte"}[(h/3)%5]
+			for i := range src.Steps {
+				src.Steps[i].E, src.Steps[i].Once = "", false
+				if src.Steps[i].N == 0 {
+					src.Steps[i].N = 1 + i%7
+				}
 			}
 		}
 		add(plan.Op{Fn: "srcset", Src: src})
@@ -556,6 +570,7 @@ func (e *Env) transientHistories(drv, label string, n int, judge func(c *transie
 			}
 			c.unconsumed = stream
 			c.disturbed = errSeen
+			c.wrapped = wrapped
 			if rr.Panic == "" && rr.Err == nil && rr.Out != "" {
 				got := string(unhex(rr.Out))
 				for k := 0; k+c.need <= len(stream); k++ {
@@ -588,6 +603,8 @@ func (c *transientCall) workingSourceVerdict() string {
 		return ""
 	}
 	switch {
+	case c.wrapped && rr.Err != nil:
+		return fmt.Sprintf("NewMnemonic(%d) on a working source handed over inside a standard wrapper returned %q", c.ops[c.i].N, errText(rr.Err))
 	case !c.consulted && rr.Err != nil && len(c.unconsumed) < c.need:
 		return fmt.Sprintf("NewMnemonic(%d) returned %q without consulting the source at all (the source would have delivered; an earlier call in the same process had failed): the outcome depends on an earlier failure", c.ops[c.i].N, errText(rr.Err))
 	case c.consulted && rr.Err != nil:
